@@ -268,3 +268,28 @@ def apply_cuts(bs, cuts):
         out.append(bs[prev:c])
         prev = c
     return out
+
+
+def threshold_cases(rng, thorough=False):
+    """(bytes, cut positions): a prefix that leaves the scanner in a rare state (truncated multi-byte lead, unfinished
+    escape / CSI / OSC / DCS / SOS), a chunk cut right after it, a LONG run of plain printable ASCII whose length sits at
+    a power of two (+-1) -- where a fast path for 'plain' chunks would have its threshold --, then a byte that only means
+    something in that state (continuation bytes, a final byte, BEL, ST), text and a multi-byte character"""
+    prefixes = [[0xE2], [0xE2, 0x82], [0xF0, 0x9F], [0xF0, 0x9F, 0x98], [0xC3], [0x1B], [0x1B, 0x5B], [0x1B, 0x5B, 0x33], [0x1B, 0x5D],
+                [0x1B, 0x5D, 0x30, 0x3B, 0x74], [0x1B, 0x50], [0x1B, 0x58], [0x1B, 0x5B, 0x0A], []]
+    lengths = [15, 16, 17, 31, 32, 33, 63, 64, 65, 127, 128, 129, 255, 256, 257] + ([511, 512, 513, 1023, 1024, 1025, 4095, 4096, 4097] if thorough else [1024])
+    suffixes = [[0x82, 0xAC], [0xAC], [0x98, 0x80], [0x6D], [0x07], [0x1B, 0x5C], [0x9C], [0xC2, 0x9C], []]
+    out = []
+    for pre in prefixes:
+        for n in (lengths if thorough else rng.sample(lengths, 6)):
+            run = [rng.randrange(0x20, 0x7F) for _ in range(n)]
+            if rng.randrange(3) == 0:
+                run = [0x61] * n
+            suf = rng.choice(suffixes)
+            tail = suf + list("x\u20acy".encode()) + [0xF0, 0x9F, 0x98, 0x80, 0x21]
+            lead = utf8_text(rng, rng.choice([0, 2]))
+            data = lead + pre + run + tail
+            cut = len(lead) + len(pre)
+            cuts = [c for c in (cut, cut + n) if 0 < c < len(data)] if rng.randrange(2) else [c for c in (cut,) if 0 < c < len(data)]
+            out.append((data, cuts))
+    return out
